@@ -477,6 +477,35 @@ def run(chk):
         else:
             chk.ok("C01.trailers", call, "body parser inherits headers_parser and lax from the head parser")
 
+    # ------------------------------------------------------------------ C01.rej.target
+    # RFC 9112 3.2: no form of request-target contains a control character; the bare-LF guard of the line splitter only looks at
+    # incomplete lines, so without this gate `GET /a\nb HTTP/1.1` is accepted or rejected depending on where the read ended
+    pm = repo.func(MOD, "HttpRequestParser.parse_message")
+    tgt_ok = None
+    for r, cname in K.raises_in(pm.node):
+        if cname not in errs:
+            continue
+        for l in PC.units(PC.pc(r)):
+            b = M.match_text("$R.search(path)", l.text) or M.match_text("re.search($R, path)", l.text)
+            if b is None or not l.pos:
+                continue
+            try:
+                rx = folder.eval(mod, b["R"])
+                got = R.single_char_set(R.lang(rx.pattern, rx.flags, "search"))
+            except (NotConst, AttributeError, R.Unsupported) as e:
+                chk.analysis_error(f"C01.rej.target: cannot fold the request-target pattern: {e}")
+                got = None
+            if got is not None:
+                want = set(range(0, 32)) | {127}
+                tgt_ok = (r, want <= got, sorted(want - got))
+    if tgt_ok is None:
+        chk.violation("C01.rej.target", pm, "request-target", "if <CTL pattern>.search(path): raise InvalidURLError", "control characters (NUL, HTAB, CR, LF, DEL ...) in the request-target are accepted: they reach raw_path, the access log and anything that re-emits the target, and for LF the verdict depends on the segmentation")
+    elif tgt_ok[1]:
+        chk.ok("C01.rej.target", tgt_ok[0], "a request-target containing any control character (00-1F, 7F) is refused before the URL is built")
+    else:
+        chk.violation("C01.rej.target", tgt_ok[0], "request-target pattern", f"missing code points {tgt_ok[2]}", "some control characters are still accepted in the request-target")
+    # ------------------------------------------------------------------ C01.reqbody
+    reqbody(chk, repo)
     # ------------------------------------------------------------------ C01.err400
     err400(chk, repo, folder, errs)
     # nothing but an HTTP protocol error can leave the request parser (shared with C10.total): otherwise malformed input is not answered 400
@@ -523,3 +552,39 @@ def err400(chk, repo, folder, errs, rule="C01.err400"):
         chk.ok(rule, (f"{PROTO}:<module>", getattr(e, "lineno", 0)), "ERROR.should_close folds to True: the connection is closed after the 400")
     else:
         chk.violation(rule, (f"{PROTO}:<module>", getattr(e, "lineno", 0)), "ERROR = RawRequestMessage(...)", "should_close=True", "the message substituted for a parse error does not close the connection")
+
+
+
+def reqbody(chk, repo, rule="C01.reqbody"):
+    """RFC 9112 6.3: whether a *request* has a body is decided by Content-Length / Transfer-Encoding alone.  "A response to HEAD has no
+    body" is a rule about responses, keyed by the method of the request that was *sent* (self.method on the response parser, None on the
+    request parser).  If the parsed message's own method feeds the empty-body decision, `HEAD /x` + `Content-Length: n` leaves its n body
+    bytes in the stream, where they are parsed as the next request (request smuggling past any front-end that honours the length)."""
+    hp = repo.func(MOD, "HttpParser.feed_data")
+    defs = norm.fn_defs(hp.node).defs
+    eb = [(d, v) for d, v in defs.get("empty_body", []) if v is not None]
+    if not eb:
+        chk.analysis_error("C01.reqbody: the `empty_body` decision of HttpParser.feed_data was not found (anchor vanished)")
+        return
+    seen = set()
+    tainted = []
+
+    def walk(expr, depth=0):
+        for n in ast.walk(expr):
+            if isinstance(n, ast.Attribute) and n.attr == "method" and norm.raw(n.value) == "msg":
+                tainted.append(n)
+            elif isinstance(n, ast.Call) and isinstance(n.func, ast.Name) and n.func.id == "getattr" and len(n.args) >= 2 and norm.raw(n.args[0]) == "msg" and isinstance(n.args[1], ast.Constant) and n.args[1].value == "method":
+                tainted.append(n)
+            elif isinstance(n, ast.Name) and n.id not in seen and depth < 4:
+                seen.add(n.id)
+                for _d, v in defs.get(n.id, []):
+                    if v is not None:
+                        walk(v, depth + 1)
+
+    for _d, v in eb:
+        walk(v)
+    if tainted:
+        chk.violation(rule, tainted[0], K.short(K.stmt_of(tainted[0]), 70), "self.method (the method of the request a response answers) only",
+                      "the parsed message's own method feeds the empty-body decision: a HEAD request that declares a body is taken to have none, and its body bytes are parsed as the next request")
+    else:
+        chk.ok(rule, eb[0][0], "the empty-body decision depends on the response status and on the method of the request that was sent, never on the parsed message's own method")
